@@ -506,7 +506,7 @@ REGISTRY = {
                         "as C03; batch ids are the snowflake ids observed from the implementation (an input of the model); distinctness of the ids of a crashed (unsealed) batch and of later batches is assumed"],
     },
     "C05": {
-        "corr": lambda tier, seed: corr_engine("C05", tier, seed, "batches,restarts,bigvals,hostilesome", 120, 3000, ops=30,
+        "corr": lambda tier, seed: corr_engine("C05", tier, seed, "batches,restarts,bigvals,hostilesome,collide", 120, 3000, ops=30,
                                                dflags=NOEV, oracle_props=["C05"]),
         "assumptions": ["theorems are about the record-level engine model; the hash index of the staging area is abstracted to a key lookup (any hash function gives the same result)",
                         "a double Commit is a rejected call in the model; the absence of a double unlock is observed by the correspondence run only"],
